@@ -176,6 +176,7 @@ def cycle(res, X, origin, desc):
                 Y_first = o.read()           # before anything has looked at the loaded object
             finally:
                 monitors.PURITY_ENABLED = True
+            workload.look_at(o)         # read-only helpers (play-order view, tabular views, printing)
             before = _snap(o)
             Y = o.read()
             after = _snap(o)
